@@ -265,8 +265,17 @@ void killMap(int ID, MidiMapperStorage &m)
 
 void MidiMappernRT::useFreeID(int ID)
 {
-    if(learnQueue.empty())
+    if(learnQueue.empty()) {
+        //no address waits (clear() came in between): the realtime side
+        //still holds ID as pending, answer with the unchanged mapping
+        MidiMapperStorage *same = storage ? storage->clone() : new MidiMapperStorage();
+        same->answers = ID;
+        storage = same;
+        char buf[1024];
+        rtosc_message(buf, 1024, "/midi-learn/midi-bind", "b", sizeof(storage), &storage);
+        rt_cb(buf);
         return;
+    }
     std::string addr = std::get<0>(learnQueue.front());
     bool coarse      = std::get<1>(learnQueue.front());
 
@@ -294,6 +303,7 @@ void MidiMappernRT::useFreeID(int ID)
             killMap(get<1>(imap), *nstorage);
         inv_map[addr] = make_tuple(get<0>(imap), get<1>(imap), ID, get<3>(imap));
     }
+    nstorage->answers = ID;
     storage = nstorage;
 
     //TODO clean up unused value and callback objects
@@ -597,9 +607,12 @@ const rtosc::Ports MidiMapperRT::ports = {
     {"midi-bind:b","",0, [](msg_t msg, RtData&d)
         {
             auto &midi = *(MidiMapperRT*)d.obj;
-            midi.pending.pop();
             MidiMapperStorage *nstorage =
                 *(MidiMapperStorage**)rtosc_argument(msg,0).b.data;
+            //only the answer to a /midi-use-CC releases a pending controller
+            //(answers arrive in the order of the requests: it is the oldest)
+            if(nstorage->answers != -1)
+                midi.pending.pop();
             if(midi.storage) {
                 nstorage->cloneValues(*midi.storage);
                 midi.storage = nstorage;
@@ -620,9 +633,10 @@ Port MidiMapperRT::removeWatchPort(void) {
 }
 Port MidiMapperRT::bindPort(void) {
     return Port{"midi-bind:b","",0, [this](msg_t msg, RtData&) {
-        pending.pop();
         MidiMapperStorage *nstorage =
             *(MidiMapperStorage**)rtosc_argument(msg,0).b.data;
+        if(nstorage->answers != -1)
+            pending.pop();
         if(storage) {
             nstorage->cloneValues(*storage);
             storage = nstorage;
